@@ -316,6 +316,25 @@ func c01Negative(c *Ctx) {
 			return sber.Message(id, sber.Prim(sber.Application, t, []byte("cn=neg")), nil).Encode()
 		}})
 	}
+	// application tags in the high-tag-number form (31 and above): every one of them is an operation gldap does not
+	// support, whatever its low bits look like; bodies shaped like the supported operations whose tags they alias
+	for _, tag := range []int{31, 32, 34, 35, 38, 40, 42, 55, 64, 66, 67, 96, 98, 127, 128, 130, 256, 258, 1 << 14, 1<<14 + 2, 1 << 21, 1<<31 - 1, 1 << 32, 1<<32 + 3} {
+		t := tag
+		negs = append(negs, neg{fmt.Sprintf("bind-shaped body under [APPLICATION %d] (high-tag form)", t), func(id int64) []byte {
+			op := sber.BindRequest(int64(2+id%2), []byte("cn=a"), []byte("p"))
+			op.Tag = t
+			return sber.Message(id, op, nil).Encode()
+		}})
+		negs = append(negs, neg{fmt.Sprintf("empty primitive [APPLICATION %d] (high-tag form)", t), func(id int64) []byte {
+			return sber.Message(id, sber.Prim(sber.Application, t, nil), nil).Encode()
+		}})
+		negs = append(negs, neg{fmt.Sprintf("request-shaped body under [APPLICATION %d] (high-tag form)", t), func(id int64) []byte {
+			q := genReq(NewRand(uint64(id)), pick(NewRand(uint64(id)+7), []string{"search", "modify", "add", "delete"}))
+			op := q.Op()
+			op.Tag = t
+			return sber.Message(id, op, nil).Encode()
+		}})
+	}
 	// realistic compare / modifyDN / abandon, and a search-shaped body under the compare tag
 	negs = append(negs,
 		neg{"compare request", func(id int64) []byte {
